@@ -2458,15 +2458,21 @@ class ProvDocument(ProvBundle):
             raise ProvException("The provided bundle has no identifier")
 
         # Link the bundle namespace manager to the document's
+        previous_parent = bundle._namespaces.parent
         bundle._namespaces.parent = self._namespaces
 
         valid_id = bundle.valid_qualified_name(identifier)
-        # IMPORTANT: Rewriting the bundle identifier for consistency
-        bundle._identifier = valid_id
-
-        if valid_id in self._bundles:
+        if valid_id is None or valid_id in self._bundles:
+            # refused: the bundle stays as it was
+            bundle._namespaces.parent = previous_parent
+            if valid_id is None:
+                raise ProvException(
+                    'The provided identifier "%s" is not valid' % identifier
+                )
             raise ProvException("A bundle with that identifier already exists")
 
+        # IMPORTANT: Rewriting the bundle identifier for consistency
+        bundle._identifier = valid_id
         self._bundles[valid_id] = bundle
         bundle._document = self
 
